@@ -3393,6 +3393,52 @@ def check_inject(rep, r_decl, r_layers):
                     return False
             return True
         return False
+    def is_filter(v, name=None):
+        """``{k: v for k, v in <mapping>.items() if k in fb.get_arg_names()}`` (with ``name``: a filter of that very dict)."""
+        if not (isinstance(v, ast.DictComp) and len(v.generators) == 1):
+            return False
+        g = v.generators[0]
+        keyvar = norm(g.target.elts[0]) if isinstance(g.target, ast.Tuple) and g.target.elts else norm(g.target)
+        if not (norm(v.key) == keyvar and any(key_test(*_strip_not(i), keyvar) for i in g.ifs)):
+            return False
+        if name is None:
+            return True
+        return isinstance(g.target, ast.Tuple) and len(g.target.elts) == 2 and norm(v.value) == norm(g.target.elts[1]) and \
+            norm(g.iter) == name + '.items()'
+
+    def mentions(st, name):
+        return any(isinstance(n, ast.Name) and n.id == name for n in ast.walk(st))
+
+    def filtered_unless_varkw(c, name):
+        """Single exit: ``if <no **kwargs>: name = {declared-only filter}`` stands right before the call (nothing in between
+        touches ``name``), so the call passes everything only to a callee that takes **kwargs."""
+        cst = stmt_of(fi.mod, c)
+        for blk in [fi.node.body] + [b for s_ in stmts_of(fi.node) for b in (getattr(s_, 'body', None), getattr(s_, 'orelse', None),
+                                                                                getattr(s_, 'finalbody', None)) if isinstance(b, list)]:
+            if not any(x is cst for x in blk):
+                continue
+            i = [k for k, x in enumerate(blk) if x is cst][0]
+            if any(n is not c and isinstance(n, ast.Name) and n.id == name for n in ast.walk(cst) if n is not star[0]):
+                return False
+            for s_ in reversed(blk[:i]):
+                if not mentions(s_, name):
+                    continue
+                if not isinstance(s_, ast.If):
+                    return False
+                t, pol = _strip_not(s_.test)
+                if _is_varkw_cond(t, pol):
+                    narrow = s_.orelse
+                elif _is_varkw_cond(t, not pol):
+                    narrow = s_.body
+                else:
+                    return False
+                asg = [k for k, x in enumerate(narrow) if isinstance(x, ast.Assign) and len(x.targets) == 1 and norm(x.targets[0]) == name]
+                if not asg:
+                    return False
+                k = asg[-1]
+                return is_filter(narrow[k].value) and not any(mentions(x, name) for x in narrow[k + 1:])
+            return False
+        return False
     for c in calls:
         star = [k.value for k in c.keywords if k.arg is None]
         ok = not c.args and len(star) == 1 and len(c.keywords) == 1
@@ -3407,6 +3453,9 @@ def check_inject(rep, r_decl, r_layers):
             elif filtered_dict(name):
                 filtered = True
                 how = 'only names in fb.get_arg_names() are passed'
+            elif filtered_unless_varkw(c, name):
+                filtered = True
+                how = 'only names in fb.get_arg_names() are passed unless the callee takes **kwargs'
         rep.check(r_decl, fkey(fi, c), ok and filtered,
                   'outermost call passes keywords only; ' + how if ok and filtered else
                   'inject may pass a name the function does not declare (no get_arg_names() filter and no **kwargs guard): %s' % short(c),
@@ -3419,9 +3468,19 @@ def check_inject(rep, r_decl, r_layers):
             for t in st.targets:
                 if isinstance(t, ast.Name):
                     names.add(t.id)
+    # ``d = {k: v for k, v in d.items() if k in declared}`` drops entries of d and changes no value: the layers of d are
+    # what they were, so the layering is read with these self-filters left out
+    import copy as _copy
+    view = _copy.deepcopy(fi.node)
+    for n in ast.walk(view):
+        for fld in ('body', 'orelse', 'finalbody'):
+            b = getattr(n, fld, None)
+            if isinstance(b, list):
+                b[:] = [x for x in b if not (isinstance(x, ast.Assign) and len(x.targets) == 1 and isinstance(x.targets[0], ast.Name)
+                                             and is_filter(x.value, x.targets[0].id))] or [ast.Pass()]
     for v in sorted(names):
         try:
-            ls = layers_of_var(fi.node, v)
+            ls = layers_of_var(view, v)
         except AnalysisError:
             continue
         if any('get_defaults_dict' in l.text for l in ls):
